@@ -488,6 +488,13 @@ func globalsSnapshot() map[string]string {
 
 func (p *c08) Run(c fw.Case) fw.Result {
 	res := fw.Result{}
+	scen := p.scenOf(c)
+	res.Fingerprint = scen.Fingerprint()
+	return p.runScen(res, scen, c)
+}
+
+// scenOf builds the scenario of a case (a pure function of the case).
+func (p *c08) scenOf(c fw.Case) *gen.Scenario {
 	r := fw.NewRand(c.Seed, "C08", c.Index)
 	var scen *gen.Scenario
 	if c.Directed != "" {
@@ -518,7 +525,10 @@ func (p *c08) Run(c fw.Case) fw.Result {
 			}
 		}
 	}
-	res.Fingerprint = scen.Fingerprint()
+	return scen
+}
+
+func (p *c08) runScen(res fw.Result, scen *gen.Scenario, c fw.Case) fw.Result {
 	before := globalsSnapshot()
 	first, err := p.outputsN(scen, c.Seed, c.Index, &res, true)
 	if err != nil {
